@@ -274,4 +274,49 @@ theorem act_simple_list1_4 {np : NestedParse} {xs ys : List Node} {t : Token} {x
     SVal.lexspan]
   exact Tot.pure ⟨rfl, by simpa using h⟩
 
+/-! ## general forms (assignments, …) -/
+
+theorem nodePos_assignment (p : Span) (s : Str) (ps : List Node) :
+    nodePos (.assignment p s ps) = pure p := rfl
+
+/-- `p_command` on a list of positioned nodes -/
+theorem act_commandG {np : NestedParse} {ns : List Node} {nh nl : Node} {ph pl : Span}
+    {l : Local} {T : Tape} {P : SVal × Bool → Local → Tape → Prop}
+    (hh : ns.head? = some nh) (hl : ns.getLast? = some nl) (hph : nodePos nh = pure ph)
+    (hpl : nodePos nl = pure pl)
+    (h : P (.node (.command (ph.1, pl.2) ns), false) l T) :
+    Tot (action np "p_command" [.nodes ns]) l T P := by
+  refine tot_action_of_core ?_
+  unfold actionCore; simp only []
+  simp only [PCtx.len, PCtx.slice, PCtx.nodesAt, List.length_cons, List.length_nil,
+    List.getD_cons_zero, Nat.sub_self, partsspan, hh, hl, hph, hpl, pure_bind]
+  exact Tot.pure ⟨rfl, h⟩
+
+/-! ## redirections -/
+
+theorem act_sce_node {np : NestedParse} {n : Node} {l : Local} {T : Tape}
+    {P : SVal × Bool → Local → Tape → Prop} (h : P (.nodes [n], false) l T) :
+    Tot (action np "p_simple_command_element" [.node n]) l T P := by
+  refine tot_action_of_core ?_
+  unfold actionCore; simp only []
+  simp only [PCtx.slice, List.getD_cons_zero, Nat.sub_self]
+  exact Tot.pure ⟨rfl, h⟩
+
+theorem act_redir {np : NestedParse} {t wt : Token} {wn : Node} {l : Local} {T : Tape}
+    {P : SVal × Bool → Local → Tape → Prop}
+    (hwt : wt.is .WORD = true)
+    (hexp : ∀ Q : Node → Local → Tape → Prop, Q wn l T → Tot (expandword np wt) l T Q)
+    (h : P (.node (.redirect (t.lexpos, wt.endlexpos) .none t.valueStr (some wn) .none none none),
+      false) l T) :
+    Tot (action np "p_redirection" [.tok t, .tok wt]) l T P := by
+  refine tot_action_of_core ?_
+  unfold actionCore; simp only []
+  simp only [PCtx.len, PCtx.slice, PCtx.tokAt, List.length_cons, List.length_nil,
+    List.getD_cons_zero, List.getD_cons_succ, Nat.sub_self, Nat.add_one_sub_one, pure_bind, hwt, if_true]
+  refine Tot.bind (hexp _ ?_)
+  simp only [show ((0 + 1 + 1 + 1 : Nat) == 3) = true from rfl, if_true, PCtx.strAt, PCtx.tokAt,
+    PCtx.slice, PCtx.lexspan, SVal.lexspan, List.getD_cons_zero, List.getD_cons_succ, Nat.sub_self,
+    Nat.add_one_sub_one, pure_bind]
+  exact Tot.pure ⟨rfl, h⟩
+
 end Bashlex.C02
